@@ -70,3 +70,23 @@ def contract_fold(u, Ts, offs):
         nb = (u < Ts[i + 1]) if i + 1 < len(Ts) else True
         f = OR(f, AND(u >= T, nb, offs[i + 1] < offs[i], u - T < offs[i] - offs[i + 1]))
     return f
+
+
+def mixed_amount(ctx, name, unit, max_days):
+    """A signed amount in `unit` ('h','m','s','us') given as mixed-radix digits
+    (days, hours, minutes, seconds, microseconds), so that the implementation's divmod-by-60/24/10^6
+    carry chains split syntactically instead of producing div/mod atoms.  The sign is a
+    Python-level fork (keeps both branches linear)."""
+    D = ctx.int(name + "_D", 0, max_days)
+    v = D
+    if unit in ("h", "m", "s", "us"):
+        v = v * 24 + ctx.int(name + "_H", 0, 23)
+    if unit in ("m", "s", "us"):
+        v = v * 60 + ctx.int(name + "_M", 0, 59)
+    if unit in ("s", "us"):
+        v = v * 60 + ctx.int(name + "_S", 0, 59)
+    if unit == "us":
+        v = v * 1000000 + ctx.int(name + "_U", 0, 999999)
+    if ctx.bool(name + "_neg"):
+        return -v
+    return v
